@@ -4,7 +4,7 @@ from __future__ import annotations
 import copy
 
 import bitstring
-from bitstring import Bits, ConstBitStream, Dtype
+from bitstring import Bits, BitStream, ConstBitStream, Dtype
 
 from rv import util
 from rv.model import bits as M
@@ -343,7 +343,10 @@ def step(ctx, s, m, pos, st, case, cname):
                 ('add-empty-stream', lambda: s + type(s)()), ('radd-empty', lambda: '' + s), ('radd-empty-list', lambda: [] + s), ('mul1', lambda: s * 1), ('rmul1', lambda: 1 * s),
                 ('mul0', lambda: s * 0), ('slice-none', lambda: s[L:]), ('slice-neg-step', lambda: s[::-1]), ('copy()', lambda: s.copy()),
                 ('join-one', lambda: type(s)().join([s])), ('cut-all', lambda: next(iter(s.cut(max(L, 1))), None)),
-                ('split-nohit', lambda: next(iter(s.split('0x' + 'f0e1d2c3b4a59687' * 3)), None))]
+                ('split-nohit', lambda: next(iter(s.split('0x' + 'f0e1d2c3b4a59687' * 3)), None)),
+                # a stream made FROM this one is a new stream at 0; making it does not touch this one
+                ('ctor-same-class', lambda: type(s)(s)), ('ctor-ConstBitStream', lambda: ConstBitStream(s)), ('ctor-BitStream', lambda: BitStream(s)),
+                ('ctor-bits-keyword', lambda: type(s)(bits=s)), ('fromstring-of-str', lambda: type(s).fromstring(str(s) if L <= 64 else '0b1'))]
         if L:
             outs += [('lshift0', lambda: s << 0), ('rshift0', lambda: s >> 0), ('lshift-all', lambda: s << L), ('and-ones', lambda: s & ('0b' + '1' * L)),
                      ('or-zeros', lambda: s | Bits(L)), ('xor-zeros', lambda: s ^ Bits(L))]
@@ -369,6 +372,21 @@ def step(ctx, s, m, pos, st, case, cname):
             if s.pos != pos:
                 bad(f'C06|derive|{name}|receiver-pos-moved', f'{pos} -> {s.pos}')
                 pos = newpos = s.pos
+        # ... and with pos= the new stream is at that position, this one still where it was
+        for name, f, want in (('ctor-same-class-pos', lambda: type(s)(s, pos=min(1, L)), min(1, L)), ('ctor-same-class-pos-end', lambda: type(s)(s, pos=L), L)):
+            k2, o = call(f)
+            if k2 != 'ok':
+                bad(f'C06|derive|{name}|unexpected-exc:{type(o).__name__}')
+            elif o is s and pos != want:
+                bad(f'C06|derive|{name}|returned-receiver', f'receiver pos {pos} -> {s.pos}')
+                pos = newpos = s.pos
+            elif o.pos != want:
+                bad(f'C06|derive|{name}|new-stream-pos', f'{o.pos} != {want}')
+            elif s.pos != pos:
+                bad(f'C06|derive|{name}|receiver-pos-moved', f'{pos} -> {s.pos}')
+                pos = newpos = s.pos
+            else:
+                ctx.ok(('derive', name, cname), L > 0)
         kind_copy, o = call(lambda: s.copy())
         if kind_copy == 'ok' and o is not s and isinstance(o, ConstBitStream) and o.pos != 0:
             bad('C06|derive|copy()|new-stream-pos-nonzero', f'{o.pos}')
